@@ -29,6 +29,9 @@ pub mod celestia;
 #[cfg(feature = "serde")]
 pub(crate) mod serde;
 
+#[cfg(all(test, feature = "verif"))]
+mod verif;
+
 /// A trait to convert from raw decoded protobuf types to idiomatic astria types.
 ///
 /// The primary use of this trait is to convert to/from foreign types.
